@@ -265,4 +265,79 @@ theorem compact_block (ct : Which) (e : ClassInfo) (r : Req) (o : Obj) (cs : Lis
   simp only [hg, Bool.false_eq_true, if_false, ha, hu, if_true, hcv, hc, Option.getD_some]
   rw [controlledGate_lists, h1]
 
+/-- the carried control value when the constructor chain hands a given one on -/
+theorem construct_cv_of_fwd {P : Policy} {e : ClassInfo} {r : Req} {o : Obj} (hf : e.fwdCV = true)
+    (h : construct P e r = .ok o) :
+    o.cv = if e.controlled && e.oneCtrl then some (r.cv.toOpt.getD P.dflt) else r.cv.toOpt := by
+  by_cases hc : e.controlled = true
+  · have := (construct_controlled hc h).2.2.1
+    rw [this]; unfold cvOf
+    by_cases ho : e.oneCtrl = true <;> simp [hc, ho, hf]
+  · have hc' : e.controlled = false := by simpa using hc
+    have := (construct_plain (P := P) hc' h).2.2.1
+    rw [this]; simp [hc']
+
+theorem fixedCheck_ok {cs : Option (List Int)} {cv : Option Int} (h : fixedCheck cs cv = .ok ()) :
+    cv = none ∨ ∃ l, cs = some l ∧ l ≠ [] ∧ cv = some (((2 ^ l.length : ℕ) : Int) - 1) := by
+  unfold fixedCheck at h
+  match cv, h with
+  | none, _ => exact Or.inl rfl
+  | some v, h =>
+    dsimp only at h
+    split at h
+    · cases h
+    · rename_i hne
+      split at h
+      · rename_i hv
+        match cs, hne with
+        | some l, hne =>
+          refine Or.inr ⟨l, rfl, ?_, by rw [hv]; rfl⟩
+          intro hl; subst hl; simp at hne
+        | none, hne => simp at hne
+      · cases h
+
+/-- a class outside the ControlledGate hierarchy that calls `_check_fixed_control_value()` in its constructor: a given
+control value is "all listed controls 1" on a non-empty list of controls -/
+theorem construct_fixed {P : Policy} {e : ClassInfo} {r : Req} {o : Obj} (hc : e.controlled = false)
+    (hg : e.generic = false) (hf : e.fixedGuard = true) (h : construct P e r = .ok o) :
+    o.cv = none ∨ ∃ l, o.controls = some l ∧ l ≠ [] ∧ o.cv = some (((2 ^ l.length : ℕ) : Int) - 1) := by
+  unfold construct at h
+  split at h
+  · exact absurd h (by simp)
+  · simp only [hc, Bool.false_eq_true, if_false] at h
+    unfold constructPlain at h
+    cases hgd : arityGuard e r.controls.norm r.targets.norm with
+    | error x => rw [hgd] at h; exact absurd h (by simp)
+    | ok u =>
+      rw [hgd] at h
+      simp only [hf, hg, Bool.not_false, Bool.and_self, if_true] at h
+      cases hfc : fixedCheck r.controls.norm r.cv.toOpt with
+      | error x => rw [hfc] at h; exact absurd h (by simp)
+      | ok u' =>
+        rw [hfc] at h
+        simp only [Except.ok.injEq] at h
+        subst h
+        exact fixedCheck_ok hfc
+
+/-- the generic `Gate(name)` with the guard at the head of `get_compact_qobj`: the matrix is only returned under the
+same condition; and no class outside the ControlledGate hierarchy reads control_value (`plain`) -/
+theorem compact_fixed_generic {ct : Which} {e : ClassInfo} {r : Req} {o : Obj} {c : Compact} (hg : e.generic = true)
+    (hf : e.fixedGuard = true) (h : compact ct e r o = .ok c) :
+    o.cv = none ∨ ∃ l, o.controls = some l ∧ l ≠ [] ∧ o.cv = some (((2 ^ l.length : ℕ) : Int) - 1) := by
+  unfold compact at h
+  simp only [hg, hf, Bool.and_self, if_true] at h
+  cases hfc : fixedCheck o.controls o.cv with
+  | error x => rw [hfc] at h; exact absurd h (by simp)
+  | ok u => exact fixedCheck_ok hfc
+
+theorem compact_plain {ct : Which} {e : ClassInfo} {r : Req} {o : Obj} {c : Compact} (hu : e.usesCV = false)
+    (h : compact ct e r o = .ok c) : c = .plain := by
+  unfold compact at h
+  split at h
+  · exact absurd h (by simp)
+  · split at h
+    · exact absurd h (by simp)
+    · simp only [hu, Bool.false_eq_true, if_false, Except.ok.injEq] at h
+      exact h.symm
+
 end QipVerif.GateCtor
